@@ -173,14 +173,14 @@ pub fn c15(opts: &Opts, out: &mut Out) {
     }
     // (c) every length 0..=1+32*20 (thorough) or a stride (quick) with tag 1 content
     let big = build(1, 8, &mut rng);
-    let step = if opts.thorough { 1 } else { 7 };
+    let step = if opts.thorough { 1 } else { 3 };
     let mut len = 0;
     while len <= big.len() {
         emit(out, "every-length", &big[..len], &mut counts);
         len += step;
     }
     // (d) random bytes
-    let nrand = if opts.thorough { 4000 } else { 300 };
+    let nrand = if opts.thorough { 4000 } else { 1000 };
     for _ in 0..nrand {
         let l = (rng.next_u32() % 500) as usize;
         let mut b = vec![0u8; l];
